@@ -694,6 +694,9 @@ func (wd *vfC11World) checkDoc(id, rev string, st vfC11DocState, mustBeCurrent b
 	}
 	body, err := wd.env.Coll.Get1xRevBody(ctx, id, rev, false, []string{})
 	if err != nil {
+		if skipLeaves && doc.GetRevTreeID() != rev {
+			return "" // known finding: the body document of a non-winning revision was not stored
+		}
 		return fmt.Sprintf("revision %s of %s cannot be read back: %v", rev, id, err)
 	}
 	if st.Deleted {
